@@ -6,8 +6,10 @@ package main
 // Oracle (the property, nothing more):
 //   root          Root() = RFC 6962 MTH of the appended leaves (bytes of the evaluated spec term)
 //   predict       GetRootWithNewLeaf / GetRootWithNewLeaves = root of the longer tree; the tree itself unchanged
-//   reload        after Marshal/UnMarshal, and after close + NewFileHashStore + NewTree(size, hashes), the tree
-//                 continues exactly like the one that was never reloaded (root, size, and every proof verifies)
+//   reload        after Marshal/UnMarshal (into a fresh tree AND into a used tree object whose root is cached, rolling
+//                 back and forward between snapshots), after close + NewFileHashStore + NewTree(size, hashes), and after
+//                 NewTree over the same used store object, the tree continues exactly like the one that was never
+//                 reloaded (root, size, predicted roots, and every proof verifies)
 //   proofs        every inclusion / leaf-path / consistency proof the tree serves is accepted by the real verifier
 // Differences that the property does not forbid (proof bytes, frontier or node-file layout different from the
 // reference while the verifiers still accept) are reported as "drift", never as a violation.
@@ -350,6 +352,10 @@ func (c *c06Run) universeRun(dir string, store string, policy func(n int) string
 				open(n)
 				tree = merkle.NewTree(uint32(n), frontier, hs)
 			}
+		case "rewrap":
+			// a new tree object over the SAME, already used store object (no reopen): contents match size n
+			tree.Root()
+			tree = merkle.NewTree(uint32(n), append([]common.Uint256{}, tree.Hashes()...), hs)
 		case "marshal":
 			buf, _ := tree.Marshal()
 			t2 := merkle.NewTree(0, nil, hs)
@@ -362,6 +368,96 @@ func (c *c06Run) universeRun(dir string, store string, policy func(n int) string
 		tree.Append(c.data[n])
 	}
 	hs.Close()
+}
+
+// usedObjectRun: save / reload on USED tree objects.  One tree object lives through all sizes; its root is read at
+// every size (cache warm); Marshal snapshots of every size 0..maxN are at hand (taken from this tree and, for later
+// sizes, from a donor tree).  At every size T the object is rolled to snapshots of earlier and later sizes s with
+// UnMarshal and must then BE the tree of size s: TreeSize, Root (twice), predicted roots, and the root after really
+// appending leaf s; then it is rolled back to T (again into a warm object) and continues.  The object has no node
+// store (UnMarshal does not rewind a store; proofs after reload are the business of the file-reopen lives).
+func (c *c06Run) usedObjectRun(pick func(T int) []int) {
+	snaps := make([][]byte, c.maxN+1)
+	donor := merkle.NewTree(0, nil, nil)
+	for n := 0; n <= c.maxN; n++ {
+		snaps[n], _ = donor.Marshal()
+		if n < c.maxN {
+			donor.Append(c.data[n])
+		}
+	}
+	expectState := func(tree *merkle.CompactMerkleTree, s, T int, how string) bool {
+		c.evals++
+		c.distinct[fmt.Sprintf("used/%s/%d", how, s)] = true
+		exp := c.tab.roots[s]
+		r1, r2 := tree.Root(), tree.Root()
+		if int(tree.TreeSize()) != s || [32]byte(r1) != exp || r1 != r2 {
+			c.violate("reload-into-used-tree-changes-the-tree", s, 0, T, obj{"how": how, "loaded_size": s, "object_was_at": T,
+				"expected_root": vio.Hex(exp[:]), "got_root": vio.Hex(r1[:]), "got_size": tree.TreeSize()})
+			return false
+		}
+		if tr := c.tab.trees[s]; tr != nil && !eqHashes(tree.Hashes(), tr.frontier) {
+			c.drift["frontier differs from the reference decomposition"]++
+		}
+		return true
+	}
+	tree := merkle.NewTree(0, nil, nil)
+	for T := 0; ; T++ {
+		if !expectState(tree, T, T, "grown") {
+			return
+		}
+		for _, s := range pick(T) {
+			if s == T || s < 0 || s > c.maxN {
+				continue
+			}
+			tree.Root() // warm cache of the state that is replaced
+			var err error
+			if pn := vio.Safe(func() { err = tree.UnMarshal(snaps[s]) }); pn != "" || err != nil {
+				c.violate("unmarshal-failed", s, 0, T, obj{"panic": pn, "err": fmt.Sprint(err)})
+				return
+			}
+			if !expectState(tree, s, T, "rolled") {
+				return
+			}
+			if c.h32 {
+				for k := 1; k <= 2; k++ {
+					exp, ok := c.tab.roots[s+k]
+					if !ok || s+k > len(c.data) {
+						continue
+					}
+					var leaves []common.Uint256
+					for i := 0; i < k; i++ {
+						var u common.Uint256
+						copy(u[:], c.data[s+i])
+						leaves = append(leaves, u)
+					}
+					c.evals++
+					if got := tree.GetRootWithNewLeaves(leaves); [32]byte(got) != exp {
+						c.violate("predicted-root-differs", s, k, T, obj{"k": k, "after": "UnMarshal into a used tree", "expected": vio.Hex(exp[:]), "got": vio.Hex(got[:])})
+					}
+				}
+			}
+			if exp, ok := c.tab.roots[s+1]; ok && s < len(c.data) {
+				tree.Append(c.data[s])
+				c.evals++
+				if got := tree.Root(); [32]byte(got) != exp || int(tree.TreeSize()) != s+1 {
+					c.violate("append-after-reload-differs", s+1, 0, T, obj{"expected": vio.Hex(exp[:]), "got": vio.Hex(got[:])})
+				}
+			}
+			// back to T, again into a warm object
+			tree.Root()
+			if err := tree.UnMarshal(snaps[T]); err != nil {
+				c.violate("unmarshal-failed", T, 0, T, obj{"err": err.Error()})
+				return
+			}
+			if !expectState(tree, T, T, "restored") {
+				return
+			}
+		}
+		if T == c.maxN {
+			break
+		}
+		tree.Append(c.data[T])
+	}
 }
 
 // surplus: a node file that already holds the nodes of a longer tree (the file is written before the state
@@ -433,6 +529,20 @@ func c06(args []string) {
 			pol[i] = []string{"", "", "file", "marshal"}[prng.Intn(4)]
 		}
 		run("random-reloads", "h32", func(c *c06Run) { c.universeRun(dir, "file", func(n int) string { return pol[n] }) })
+		run("rewrap-same-file-store", "h32", func(c *c06Run) { c.universeRun(dir, "file", func(int) string { return "rewrap" }) })
+		run("rewrap-same-memory-store", "var", func(c *c06Run) { c.universeRun(dir, "mem", func(int) string { return "rewrap" }) })
+		pick := func(T int) []int {
+			if maxN <= 40 {
+				all := make([]int, maxN+1)
+				for i := range all {
+					all[i] = i
+				}
+				return all
+			}
+			return []int{0, 1, T - 1, T + 1, T / 2, prng.Intn(maxN + 1), prng.Intn(maxN + 1), maxN}
+		}
+		run("used-object-rollback", "h32", func(c *c06Run) { c.usedObjectRun(pick) })
+		run("used-object-rollback-var", "var", func(c *c06Run) { c.usedObjectRun(pick) })
 		// surplus scenarios
 		nsur := 3
 		if tier != "quick" {
